@@ -115,6 +115,8 @@ type c15Case struct {
 	types [][2]string
 }
 
+const c15ShortcutOrRoot = `@a // {or: ["string", "integer"]}`
+
 const c15OverlapRoot = "{\n  @plain: 1,\n  @ruled: 2, // the third key fits this type as well\n  @plain2: 3\n}"
 
 var c15Cases = []c15Case{
@@ -155,10 +157,17 @@ var c15Cases = []c15Case{
 	{"{\n  \"a\": @node,\n  \"b\": @node,\n  \"c\": @link\n}", [][2]string{{"@link", `@node`}, {"@node", "{\n  \"child\": @node, // {optional: true}\n  \"next\": @link // {optional: true}\n}"}}},
 	{"{\n  \"a\": @link,\n  \"b\": @node,\n  \"c\": @link,\n  \"d\": @l2\n}", [][2]string{{"@link", `@node | @leaf`}, {"@l2", `@link`}, {"@leaf", `1`}, {"@node", "{\n  \"child\": @node, // {optional: true}\n  \"next\": @link // {optional: true}\n}"}}},
 	{"[\n  @node,\n  @link,\n  @node,\n  @link\n]", [][2]string{{"@link", `@node`}, {"@node", "{\n  \"kids\": [\n    @link\n  ]\n}"}}},
+	// mutual recursion closed by an optional property: the cut goes where the optional property is
+	{`@a`, [][2]string{{"@a", "{\n  \"x\": @b // {optional: true}\n}"}, {"@b", "{\n  \"y\": @a\n}"}}},
+	{`@b`, [][2]string{{"@a", "{\n  \"x\": @b // {optional: true}\n}"}, {"@b", "{\n  \"y\": @a\n}"}}},
+	{"{\n  \"p\": @a,\n  \"q\": @b\n}", [][2]string{{"@a", "{\n  \"x\": @b // {optional: true}\n}"}, {"@b", "{\n  \"y\": @a,\n  \"z\": 1\n}"}}},
+	{`@a`, [][2]string{{"@a", "{\n  \"l\": [\n    @b\n  ]\n}"}, {"@b", "{\n  \"y\": @a,\n  \"w\": @c\n}"}, {"@c", "{\n  \"v\": @b | @d\n}"}, {"@d", `1`}}},
 	// several key shortcuts whose key types carry rules
 	{"{\n  @id: 1,\n  @name: \"x\"\n}", [][2]string{{"@id", `"id-1" // {regex: "id-[0-9]+"}`}, {"@name", `"name_a" // {regex: "name_[a-z]+"}`}}},
 	{"{\n  @id: 1,\n  @name: \"x\",\n  @third: true\n}", [][2]string{{"@id", `"ab" // {minLength: 2, maxLength: 2}`}, {"@name", `"abc" // {minLength: 3}`}, {"@third", `"q" // {enum: ["q", "r"]}`}}},
 	{"{\n  @plain: 1,\n  @ruled: 2,\n  @plain2: 3\n}", [][2]string{{"@plain", `"p"`}, {"@ruled", `"rr" // {minLength: 2}`}, {"@plain2", `"z"`}}},
+	// a type shortcut next to an or rule of built-in types (known finding: Example answers "Loader error")
+	{c15ShortcutOrRoot, [][2]string{{"@a", `1`}}},
 	// ... and one whose example key also fits the key type of a shortcut declared earlier (known finding)
 	{c15OverlapRoot, [][2]string{{"@plain", `"p"`}, {"@ruled", `"rr" // {minLength: 2}`}, {"@plain2", `"zzz"`}}},
 	// a list of alternatives that also spells out its type
@@ -172,6 +181,9 @@ var c15Cases = []c15Case{
 func ZZC15Types() {
 	c := c15Cases[v.Choose(0, len(c15Cases)-1)]
 	v.Observe("schema", c.root)
+	if c.root == c15ShortcutOrRoot {
+		v.Observe("overlap", "type-shortcut-with-or-rule-of-built-in-types")
+	}
 	if c.root == c15OverlapRoot {
 		v.Observe("overlap", "example-key-fits-an-earlier-key-shortcut")
 	}
